@@ -413,12 +413,37 @@ def family_flags(pre, op):
             P.add('empties_optional_block')
     if not stmt_level and cont is not None:
         x = pre.extent(cont)
+        if not hasattr(cont, 'lineno') and not isinstance(cont, ast.arguments) and op.get('path'):
+            # positionless container (comprehension, withitem, ...): the bracketed container is its nearest positioned ancestor
+            for k in range(len(op['path']), -1, -1):
+                anc = resolve(pre.tree, [tuple(p) for p in op['path'][:k]])
+                if anc is not None and hasattr(anc, 'lineno') and isinstance(anc, ast.expr):
+                    x = pre.extent(anc)
+                    cont = anc
+                    break
+        if isinstance(cont, ast.arguments):  # the container is the parenthesized parameter list of the def
+            owner = next((n for n in ast.walk(pre.tree) if getattr(n, 'args', None) is cont and isinstance(n, (ast.FunctionDef, ast.AsyncFunctionDef))), None)
+            if owner is not None:
+                start = (owner.lineno, pre.b2c(owner.lineno, owner.col_offset))
+                depth, open_at = 0, None
+                for t in pre.toks:
+                    if t.start < start or t.type != tokenize.OP:
+                        continue
+                    if t.string in '([{':
+                        if depth == 0 and open_at is None and t.string == '(':
+                            open_at = t.start
+                        depth += 1
+                    elif t.string in ')]}':
+                        depth -= 1
+                        if depth == 0 and open_at is not None:
+                            x = (open_at[0], open_at[1], t.end[0], t.end[1])
+                            break
         if x is None and op.get('path'):
             par = resolve(pre.tree, [tuple(p) for p in op['path'][:-1]])
             x = pre.extent(par) if par is not None and not isinstance(par, ast.Module) else None
         if x is not None:
             sl, sc, el, ec = x
-            if isinstance(cont, ast.expr):
+            if isinstance(cont, (ast.expr, ast.arguments)):  # the brackets of a def's parameter list are the container's
                 sl, sc, el, ec = pre.widen_over_parens(sl, sc, el, ec)
             if any(t.type == tokenize.COMMENT and (sl, sc) <= t.start <= (el, 10 ** 9) for t in pre.toks):
                 P.add('container_holds_comments')
